@@ -75,3 +75,46 @@ def text_only_for_ascii_formats():
     sym.check("non_ascii_format_rejected", sym.implies(fmt is not EnvelopeFormat.JSON, raised))
     if not raised:
         sym.check("text_header", s[:8] == "HUGRiHJv" and s[8] == "?")
+
+
+@lemma("C09", bounds="packages of 0..2 modules drawn from 7 builder templates (calls, nested regions, CFG, constants, tracked circuit, non-ASCII "
+                     "names/metadata) and 0..2 extensions; compression None or a symbolic level in {-5,0,1,3,22} (quick) / -5..22 (thorough), realised at the zstd boundary; second module fixed in quick; "
+                     "bytes and text encodings", outside="MODULE / MODULE_WITH_EXTS payloads (need the native hugr._hugr, absent offline)",
+       opts={"max_paths": 100000, "timeout_s": 1500})
+def package_roundtrip():
+    import json
+    from hugr.package import Package
+    from vrf.harness import programs
+    nm = sym.concretize(sym.int("modules", 0, 2))
+    mods = [programs.MODULES[sym.concretize(sym.int(f"m{j}", 0, len(programs.MODULES) - 1)) if (j == 0 or P(False, True)) else 6]().hugr
+            for j in range(nm)]
+    ne = sym.concretize(sym.int("extensions", 0, 2))
+    exts = [programs.extension_small(f"ext{j}.ünï", with_binary=(j == 1)) for j in range(ne)]
+    pkg = Package(mods, exts)
+    if sym.concretize(sym.bool("compressed")):
+        level = sym.int("level", -5, 22)
+        if P(True, False):
+            sym.assume(sym.or_(level == -5, level == 0, level == 1, level == 3, level == 22))
+    else:
+        level = None
+    cfg = EnvelopeConfig(format=EnvelopeFormat.JSON, zstd=level)
+    text = level is None and sym.concretize(sym.bool("as_text"))
+    if text:
+        s = pkg.to_str(cfg)
+        sym.check("text_is_ascii_header_plus_json", s.startswith("HUGRiHJv?@"))
+        back = Package.from_str(s)
+    else:
+        data = pkg.to_bytes(cfg)
+        sym.check("header_bytes", data[:8] == MAGIC_NUMBERS and data[8] == 63 and data[9] == (0x41 if level is not None else 0x40))
+        back = Package.from_bytes(data)
+    sym.check("same_number_of_modules_and_extensions", len(back.modules) == nm and len(back.extensions) == ne)
+    ok = True
+    for a, b in zip(pkg.modules, back.modules):
+        ok = ok and json.loads(a.to_json()) == json.loads(b.to_json())
+    sym.check("modules_reserialize_identically_in_order", ok)
+    ok = True
+    for a, b in zip(pkg.extensions, back.extensions):
+        ok = ok and json.loads(a.to_json()) == json.loads(b.to_json()) and a.name == b.name
+    sym.check("extensions_reserialize_identically_in_order", ok)
+    if level is None and not text:
+        sym.check("default_config_equals_uncompressed_json", pkg.to_bytes() == data)
